@@ -390,7 +390,15 @@ def analyze_index(scen, r):
             if "error" in orph:
                 V("orphans-command-raises", f"run {i} of {tag}: {orph['error']}")
                 orph = {"listed": []}
-            if run["end"] == "ok":
+            if run.get("mode"):
+                # a DRY_RUN / GENERATE_ONLY run that ended normally: the index is what the earlier runs left
+                if not completed <= (jobs | bak):
+                    V("completed-plan-lost", f"run {i} ({run}); last completed plan {sorted(completed)} not within jobs {sorted(jobs)} + jobs.bak {sorted(bak)}")
+                if i > 0 and i - 1 < len(snaps):
+                    prev = snaps[i - 1]
+                    if (prev["jobs"], prev["jobs.bak"]) != (st["jobs"], st["jobs.bak"]):
+                        V("index-changed-by-dry-run", f"run {i} ({run}) changed the index: jobs {prev['jobs']} -> {st['jobs']}, jobs.bak {prev['jobs.bak']} -> {st['jobs.bak']}")
+            elif run["end"] == "ok":
                 if jobs != S:
                     V("index-differs-from-plan", f"run {i} ({run}) ended normally; index lists {sorted(jobs)}, submitted {sorted(S)}")
                 bad = [x for x in (st["jobs"] or []) if not (x[1] and x[2])]
